@@ -65,7 +65,7 @@ CLAIMED = {
               "(4 000 quick / 40 000 thorough) are rendered to real schema/document/data objects and executed with execute_sync three times on shared objects; "
               "TLC evaluates Execute on every recorded case and compares data incl. key order, the set and number of error paths and the argument map of every "
               "resolver call; repeated and interleaved executions must be identical."
-              " The domain includes list variables, documents parsed without locations (cross-request caches keyed by nodes) and input object literals with variables inside (CoerceObj)."),
+              " The domain includes list variables, documents parsed without locations (cross-request caches keyed by nodes) input object literals with variables inside (CoerceObj) and variables of input object type given as maps with explicit nulls, missing fields, nested maps and unknown keys (VarCoerceObj)."),
         design_ref="DESIGN.md 5/C02",
         note="Trusted: Execute.tla as the reading of spec section 6; gqlmini renderers; documents are filtered by the real validate(); custom scalars/middleware out of scope.",
         technique="TLC evaluation of recorded real executions against the transcribed specification algorithm Execute.tla",
@@ -128,7 +128,9 @@ CLAIMED = {
               "source, failure only after all earlier responses and single close. Code->spec: seeded subscription operations x event sequences (0..4 "
               "events, arbitrary payload shapes) x creation failures x ending/raising sources x gated emission and gated per-event resolvers are run through "
               "subscribe() on a deterministic loop under every interleaving of emission, resolver completion and pulls (within a budget); TLC evaluates "
-              "S1-S6 on each run, comparing every response with Execute.tla applied to that event."),
+              "S1-S6 on each run, comparing every response with Execute.tla applied to that event. Execute.tla carries the rule of the executor without "
+              "incremental delivery (DeferMet: an object position whose selection meets an active @defer is a field error, at every list item alike) for "
+              "documents with @defer(if: $var); a subscription whose only root field is excluded by @skip/@include counts as a creation failure."),
         design_ref="DESIGN.md 5/C07",
         note="Trusted: Execute.tla, gqlmini renderers; one action per quiescent point; a single outstanding pull.",
         technique="TLC model checking of Subscribe.tla + TLC evaluation of recorded subscription runs against SubscribeV.tla/Execute.tla",
